@@ -15,9 +15,9 @@
 package main
 
 import (
+	nativeEcdsa "crypto/ecdsa"
 	"crypto/sha256"
 	"crypto/sha512"
-	nativeEcdsa "crypto/ecdsa"
 	"encoding/hex"
 	"fmt"
 	"hash"
